@@ -199,7 +199,7 @@ theorem nodeOut_core (ar : Env) (pos : Pos) (ctx : Ctx) (k : Kind) (body : Fores
     (ok : ctxOK ctx = true) (h : nodeOut ar pos ctx k body = .accept) :
     nodeCore ar pos ctx k body = true := by
   cases k with
-  | stmt | astmt | block | loop | ompTarget => simp [nodeCore]
+  | stmt | astmt | codeBlock | block | loop | ompTarget => simp [nodeCore]
   | ompTaskwait =>
     have := guard_accept h
     simp only [nodeCore]
@@ -289,16 +289,16 @@ theorem nodeOut_core (ar : Env) (pos : Pos) (ctx : Ctx) (k : Kind) (body : Fores
   | accParallel | accKernels | accData =>
     have := guard_accept h
     simp only [Bool.and_eq_true, Bool.not_eq_true'] at this
-    simpa [nodeCore] using this.1.1
+    simpa [nodeCore] using this.1.1.1
   | accLoop c =>
     have := guard_accept h
     simp only [Bool.and_eq_true] at this
     simp only [nodeCore, Bool.and_eq_true]
-    exact ⟨this.1.1.1, collapseAcc_assoc _ _ _ this.1.1.2⟩
+    exact ⟨this.1.1.1.1, collapseAcc_assoc _ _ _ this.1.1.1.2⟩
   | accAtomic =>
     have := guard_accept h
     simp only [Bool.and_eq_true] at this
-    simpa [nodeCore] using this.1.1
+    simpa [nodeCore] using this.1.1.1
   | accEnterData | accUpdate =>
     have := guard_accept h
     simp only [Bool.and_eq_true, Bool.not_eq_true'] at this
@@ -320,18 +320,18 @@ theorem nodeOut_rect (ar : Env) (pos : Pos) (ctx : Ctx) (k : Kind) (body : Fores
     simp only [Bool.and_eq_true] at this
     rcases max_one_cases c with ⟨hc, _⟩ | hc
     · subst hc; simp [rectNest]
-    · rw [hc] at this; exact collapseAcc_rect _ _ _ this.1.1.2
+    · rw [hc] at this; exact collapseAcc_rect _ _ _ this.1.1.1.2
 
 /-- One node: an accepted OpenACC directive has no OpenMP ancestor (b). -/
 theorem nodeOut_acc_ctx (ar : Env) (pos : Pos) (ctx : Ctx) (k : Kind) (body : Forest)
     (h : nodeOut ar pos ctx k body = .accept) (hk : isAcc k = true) : ctx.any isOmp = false := by
   cases k <;> simp [isAcc] at hk <;> simp only [nodeOut] at h <;>
     have := guard_accept h <;> simp only [Bool.and_eq_true, Bool.not_eq_true'] at this
-  · exact this.1.2
-  · exact this.1.2
-  · exact this.1.2
-  · exact this.1.2
-  · exact this.1.2
+  · exact this.1.1.2
+  · exact this.1.1.2
+  · exact this.1.1.2
+  · exact this.1.1.2
+  · exact this.1.1.2
   · exact this.2
   · exact this.2
   · have h1 := this.1
@@ -343,7 +343,7 @@ theorem nodeOut_acc_body (ar : Env) (pos : Pos) (ctx : Ctx) (k : Kind) (body : F
     containsOmp body = false := by
   cases k <;> simp [isAcc] at hk <;> simp [isLeaf] at hl <;> simp only [nodeOut] at h <;>
     have := guard_accept h <;> simp only [Bool.and_eq_true, Bool.not_eq_true'] at this <;>
-    exact this.2
+    exact this.1.2
 
 theorem containsOmp_cons_false {k : Kind} {body rest : Forest}
     (h : containsOmp (.cons k body rest) = false) :
@@ -772,6 +772,71 @@ exception wins) agrees with the real sweep over whole Containers on the module c
 pairs of 16 routine shapes — with / without `acc routine`, `declare target`, compute regions, OpenMP,
 orphaned loop directives — and all triples of 6 of them), regenerated on every run. -/
 theorem C10_ctable_agrees : Gen.ctableOk writerC = true := by decide +kernel
+
+/-! ### the class catalogue (introspection of the working tree, regenerated on every run) -/
+
+/-- every directive kind of the model, with a representative parameter -/
+def allKinds : List Kind :=
+  [.stmt, .astmt, .codeBlock, .block, .loop 0, .ompParallel, .ompDo 0, .ompParallelDo 0, .ompTeamsDPD 0, .ompLoop 0,
+   .ompSingle false, .ompMaster, .ompTaskloop, .ompTask, .ompTaskwait, .ompTarget, .ompAtomic, .ompSimd,
+   .ompDeclareTarget, .accParallel, .accKernels, .accData, .accLoop 0, .accAtomic, .accEnterData, .accUpdate,
+   .accRoutine]
+
+/-- a kind `applyOp` can insert -/
+def insertable (k : Kind) : Bool := isRegionKind k || (loopDirCollapse k).isSome || isStandalone k
+
+/-- Every `Directive` subclass found in the working tree is a model kind, or an API-specific subclass
+that inherits the modelled checks unchanged (defines no `validate_global_constraints` of its own), or
+one of the nine pinned base classes.  A new directive class, or a subclass that starts overriding the
+checks, makes this fail. -/
+theorem C10_classes_covered :
+    Gen.directiveClasses.all (fun c =>
+      match c.2.2.1 with
+      | "kind" => c.2.2.2.isSome
+      | "subclass" => c.2.2.2.isSome && c.2.1 != c.1
+      | _ => ["ACCRegionDirective", "ACCStandaloneDirective", "OMPRegionDirective", "OMPSerialDirective",
+              "OMPStandaloneDirective", "OMPTaskDirective", "RegionDirective", "StandaloneDirective"].contains c.1)
+      = true := by decide
+
+/-- every directive kind of the model (all kinds but statements, if-blocks and loops) is the exact
+model of some class of the working tree -/
+theorem C10_kinds_are_classes :
+    allKinds.all (fun k => !(isOmp k || isAcc k) ||
+      Gen.directiveClasses.any (fun c => c.2.2.1 == "kind" && c.2.2.2 == some k)) = true := by decide
+
+/-- which class defines the checks each modelled class runs (a class that gains or loses its own
+`validate_global_constraints` changes this list) -/
+theorem C10_check_owners_pinned :
+    (Gen.directiveClasses.filter (fun c => c.2.1 != c.1)).map (fun c => (c.1, c.2.1)) =
+      [("DynACCEnterDataDirective", "ACCEnterDataDirective"), ("DynamicOMPTaskDirective", "OMPTaskDirective"),
+       ("GOACCEnterDataDirective", "ACCEnterDataDirective"), ("OMPMasterDirective", "OMPSerialDirective"),
+       ("OMPRegionDirective", "Node"), ("OMPSingleDirective", "OMPSerialDirective"),
+       ("OMPStandaloneDirective", "Node"), ("OMPTargetDirective", "Node"), ("RegionDirective", "Node"),
+       ("StandaloneDirective", "Node")] := by decide
+
+/-- every directive that ANY transformation of the working tree creates (observed by applying every
+generic transformation to probe programs, plus constructor calls in the source of every
+transformation class, inherited through subclasses) is a kind `applyOp` inserts … -/
+theorem C10_creators_modelled :
+    Gen.createdKinds.all (fun p => match p.2 with
+      | some k => insertable k
+      | none => false) = true := by decide
+
+/-- … and every kind `applyOp` inserts is created by a real transformation (the transformation model
+has no operation without a counterpart). -/
+theorem C10_ops_are_real :
+    allKinds.all (fun k => !(insertable k) || Gen.createdKinds.any (fun p => p.2 == some k)) = true := by
+  decide
+
+/-- the transformations that create directives, pinned: a new directive-creating transformation
+changes this list -/
+theorem C10_creators_pinned :
+    Gen.creators.map (·.1) =
+      ["ACCDataTrans", "ACCEnterDataTrans", "ACCKernelsTrans", "ACCLoopTrans", "ACCParallelTrans",
+       "ACCRoutineTrans", "ACCUpdateTrans", "Dynamo0p3OMPLoopTrans", "DynamoOMPParallelLoopTrans",
+       "GOceanOMPLoopTrans", "GOceanOMPParallelLoopTrans", "OMPDeclareTargetTrans", "OMPLoopTrans",
+       "OMPMasterTrans", "OMPParallelLoopTrans", "OMPParallelTrans", "OMPSingleTrans", "OMPTargetTrans",
+       "OMPTaskTrans", "OMPTaskloopTrans", "OMPTaskwaitTrans"] := by decide
 
 /-- The full statement of the property on the model. -/
 def C10_statement : Prop := ∀ t, writerAccepts t = true → specValid t
